@@ -27,31 +27,38 @@ Inductive lobj :=
   | LNil
   | LT
   | LFix (z : Z)
+  | LBig (z : Z)              (* *slip.Bignum *)
   | LOctet (z : Z)
   | LDouble (raw : bytes)
+  | LLong (raw : bytes)       (* *slip.LongFloat made from the text raw: opaque *)
   | LStr (s : bytes)
   | LSym (s : bytes)
   | LTime (t : Z)
   | LList (l : list lobj)
   | LTail (x : lobj).         (* slip.Tail: the cdr of a dotted pair, List{car, Tail{cdr}} *)
 
-(* conversion to Fixnum (int64) of the Go integer kinds: only uint and uint64 can wrap *)
+(* conversion to Fixnum (int64) of the Go integer kinds that always fit (totalised for the model's unbounded Z) *)
 Definition wrap64 (z : Z) : Z :=
   let m := (z mod 18446744073709551616)%Z in if (m <? 9223372036854775808)%Z then m else (m - 18446744073709551616)%Z.
 
-(* slip.SimpleObject *)
+(* an integer as a Lisp object: a fixnum when it is an int64, a bignum otherwise *)
+Definition fits64 (z : Z) : bool := (-9223372036854775808 <=? z)%Z && (z <=? 9223372036854775807)%Z.
+Definition int_obj (z : Z) : lobj := if fits64 z then LFix z else LBig z.
+
+(* slip.SimpleObject (with repo_fixes C18-1: json.Number, C18-2: uint/uint64 above MaxInt64) *)
 Fixpoint simple_object (g : gov) : lobj :=
   match g with
   | GNil => LNil
   | GBool true => LT
   | GBool false => LNil                 (* `if tv { obj = True }` *)
   | GInt KUint8 z => LOctet z
+  | GInt KUint z | GInt KUint64 z => int_obj z
   | GInt _ z => LFix (wrap64 z)
   | GF64 raw => LDouble raw
   | GStr s => LStr s
   | GBytes s => LStr s
   | GTime t => LTime t
-  | GNum _ => LNil                      (* no case for json.Number: obj stays nil *)
+  | GNum raw => match int_of_bytes raw with Some z => int_obj z | None => LLong raw end
   | GSlice l => LList (map simple_object l)
   | GMap kvs => LList (map (fun kv => LList [LStr (fst kv); LTail (simple_object (snd kv))]) kvs)
   end.
@@ -62,6 +69,8 @@ Fixpoint simplify (o : lobj) : gov :=
   | LNil => GNil
   | LT => GBool true
   | LFix z => GInt KInt64 z
+  | LBig z => if fits64 z then GInt KInt64 z else GStr (print_int z)    (* Bignum.Simplify: int64 or the digits *)
+  | LLong raw => GStr raw                                                (* LongFloat.Simplify: its text *)
   | LOctet z => GInt KInt64 z
   | LDouble raw => GF64 raw
   | LStr s => GStr s
@@ -105,7 +114,8 @@ Fixpoint gov_jv (g : gov) : option jv :=
   | _ => None
   end.
 
-(* bag.ObjectToBag; None = TypePanic or a value outside JSON data (time) *)
+(* bag.ObjectToBag; None = TypePanic or a value outside JSON data (time).  With repo_fixes C18-3 a bignum
+   beyond int64 is stored as a json.Number, the way the parsers hold such an integer. *)
 Fixpoint object_to_bag (o : lobj) : option jv :=
   match o with
   | LNil => Some JNull
@@ -138,6 +148,19 @@ Fixpoint object_to_bag (o : lobj) : option jv :=
          end) l []
     | _ => option_map JArr as_list
     end
+  | LBig z => Some (if fits64 z then JInt z else JBig z)
   | LTail x => gov_jv (simplify (LTail x))
   | other => gov_jv (simplify other)
+  end.
+
+(* bag-modify with (lambda (x) x) or with a function that returns a constant: the function is given bag-native
+   of the match and what it returns goes through ObjectToBag like a value given to bag-set (repo_fixes C18-4;
+   before, it went through slip.Simplify: an assoc list became a list of two-element lists) *)
+Inductive mfn := MId | MConst (x : lobj).
+Definition mfn_apply (f : mfn) (c : jv) : jv :=
+  match object_to_bag (match f with MId => to_native c | MConst x => x end) with Some c' => c' | None => c end.
+Definition bag_modify_fn (p : path) (f : mfn) (v : jv) : option jv :=
+  match List.rev p with
+  | FDesc :: _ => None
+  | _ => Some (modify_at p (mfn_apply f) v)
   end.
